@@ -144,8 +144,17 @@ Proof. intros p c s H. cbn. rewrite H. reflexivity. Qed.
 Lemma strip_prefix_app : forall w r, strip_prefix w (w ++ r) = Some r.
 Proof. induction w as [|a w IH]; intros r; cbn; [reflexivity|]. rewrite N.eqb_refl. apply IH. Qed.
 
-Lemma take_alpha_app : forall v r, forallb is_alpha v = true ->
-  (r = [] \/ exists c r', r = c :: r' /\ is_alpha c = false) -> take_alpha (v ++ r) = (v, r).
+Lemma tagchar_facts : forall c, is_tagchar c = true -> (c =? 9) = false /\ (c =? 32) = false.
+Proof.
+  intros c H. unfold is_tagchar, is_alpha, is_digit in H.
+  repeat (apply orb_true_iff in H; destruct H as [H|H]);
+    try (apply andb_true_iff in H; destruct H as [H1 H2]; apply N.leb_le in H1; apply N.leb_le in H2);
+    try (apply N.eqb_eq in H);
+    split; apply N.eqb_neq; lia.
+Qed.
+
+Lemma take_tagchars_app : forall v r, forallb is_tagchar v = true ->
+  (r = [] \/ exists c r', r = c :: r' /\ is_tagchar c = false) -> take_tagchars (v ++ r) = (v, r).
 Proof.
   induction v as [|c v IH]; intros r Hv Hr; cbn.
   - destruct Hr as [->|(c & r' & -> & Hc)]; cbn; [reflexivity|]. rewrite Hc. reflexivity.
@@ -165,20 +174,19 @@ Lemma p_quoted_space : forall p s, p_quoted (p, 32 :: s) = p_quoted (Some 32, s)
 Proof. intros. unfold p_quoted. rewrite !quoted1_space. reflexivity. Qed.
 
 Definition stops (r : str) : Prop := r = [] \/ exists r', r = 32 :: r'.
-Lemma stops_alpha : forall r, stops r -> r = [] \/ exists c r', r = c :: r' /\ is_alpha c = false.
+Lemma stops_alpha : forall r, stops r -> r = [] \/ exists c r', r = c :: r' /\ is_tagchar c = false.
 Proof. intros r [->|(r' & ->)]; [left; reflexivity|right; exists 32, r'; split; reflexivity]. Qed.
 
 Lemma p_var_print : forall v r p, wf_var v -> stops r -> exists p', p_var (p, v ++ r) = Some (v, (p', r)).
 Proof.
-  intros v r p [->|[->|[Hne Ha]]] Hr.
+  intros v r p [->|[->|Hne]] Hr.
   - eexists. unfold p_var, lit. cbn. reflexivity.
   - eexists. unfold p_var, lit. cbn. reflexivity.
-  - destruct v as [|c v]; [congruence|]. cbn in Ha. apply andb_true_iff in Ha. destruct Ha as [Hc Hv].
+  - destruct Hne as (c & w & -> & Hc & Hv).
     destruct (alpha_facts c Hc) as (Hws & H64 & _).
     eexists. unfold p_var, lit, word, skipw. cbn [fst snd app].
-    rewrite (skip_go_nonws _ _ _ Hws). cbn [strip_prefix s_state s_name]. rewrite H64.
-    change (c :: v ++ r) with ((c :: v) ++ r).
-    rewrite (take_alpha_app (c :: v) r); [reflexivity| cbn; rewrite Hc, Hv; reflexivity | apply stops_alpha; exact Hr].
+    rewrite (skip_go_nonws _ _ _ Hws). cbn [strip_prefix s_state s_name]. rewrite H64. rewrite Hc.
+    rewrite (take_tagchars_app w r Hv (stops_alpha r Hr)). reflexivity.
 Qed.
 
 Lemma take_body_print : forall s r, wf_str s -> take_body 34 (s ++ 34 :: r) = Some (s, r).
@@ -382,9 +390,10 @@ Lemma notab_nil : notab [].
 Proof. reflexivity. Qed.
 Lemma notab_var : forall v, wf_var v -> notab v.
 Proof.
-  intros v [->|[->|[_ Ha]]]; [reflexivity|reflexivity|].
-  induction v as [|c v IH]; [reflexivity|]. cbn in Ha. apply andb_true_iff in Ha. destruct Ha as [Hc Hv].
-  apply notab_cons; [apply (alpha_facts c Hc)|apply IH; exact Hv].
+  intros v [->|[->|(c & w & -> & Hc & Hw)]]; [reflexivity|reflexivity|].
+  apply notab_cons; [apply (alpha_facts c Hc)|].
+  induction w as [|d w IH]; [reflexivity|]. cbn in Hw. apply andb_true_iff in Hw. destruct Hw as [Hd Hw].
+  apply notab_cons; [apply (tagchar_facts d Hd)|apply IH; exact Hw].
 Qed.
 Lemma notab_str : forall s, wf_str s -> notab s.
 Proof.
@@ -461,7 +470,10 @@ Example print_parse_ex :
   wf_expr r /\ parse_filter (pr_expr r) = Some r.
 Proof.
   cbv zeta. split; [|vm_compute; reflexivity].
-  assert (W : forall v, v <> [] -> forallb is_alpha v = true -> wf_var v) by (intros; right; right; split; assumption).
+  assert (W : forall v, v <> [] -> forallb is_alpha v = true -> wf_var v).
+  { intros [|c w] Hne Ha; [congruence|]. cbn in Ha. apply andb_true_iff in Ha. destruct Ha as [Hc Hw].
+    right; right. exists c, w. split; [reflexivity|]. split; [exact Hc|].
+    rewrite forallb_forall in *. intros x Hx. unfold is_tagchar. rewrite (Hw x Hx). reflexivity. }
   split; cbn [r_first r_rest].
   - split; [apply W; [discriminate|reflexivity]|reflexivity].
   - repeat apply Forall_cons; try apply Forall_nil; split; cbn [fst snd wf_atom].
@@ -474,3 +486,9 @@ Proof.
     + right; reflexivity.
     + split; apply W; try discriminate; reflexivity.
 Qed.
+
+(* tag names are letters, digits, underscores (starting with a letter), as the help of `jobs` says: alphanumeric *)
+Definition tagname_text : str := [109;111;100;101;108;95;50;32;61;32;34;97;34].      (* model_2 = "a" *)
+Lemma tag_names_alphanumeric :
+  parse_filter tagname_text = Some {| r_first := RAEq [109;111;100;101;108;95;50] (ROConst [97]); r_rest := [] |}.
+Proof. vm_compute. reflexivity. Qed.
